@@ -245,6 +245,27 @@ impl Run {
         Value::from(snaps)
     }
 
+    /// The process stops after the k-th stored write of the operation that just ran: storage is
+    /// rolled back to that point and the replica is gone until it is reopened.
+    fn crash_to(&mut self, r: usize, pre: &BTreeMap<String, Arc<Vec<u8>>>, from: usize, k: usize) {
+        let writes: Vec<(String, Arc<Vec<u8>>)> = {
+            let s = self.stores[r].lock().unwrap();
+            s.log[from..].iter().filter(|w| w.outcome == "stored").map(|w| (w.key.clone(), w.bytes.clone())).collect()
+        };
+        let mut cur = pre.clone();
+        for (key, bytes) in writes.iter().take(k) {
+            cur.insert(key.clone(), bytes.clone());
+        }
+        *self.stores[r].lock().unwrap().own_mut() = cur;
+        self.reps[r] = None;
+        self.i += 1;
+        let ev = json!({"run": self.id, "i": self.i, "op": "Crash", "r": rname(r), "a": {"k": k},
+            "res": {"kind": "ok", "msg": "", "val": ""}, "pool": self.pool, "obs": {"closed": true}, "x": {}});
+        if !self.quiet {
+            let _ = self.tx.send(Msg::Event(ev));
+        }
+    }
+
     pub fn exec(&mut self, op: &Value) {
         if self.dead {
             return;
@@ -324,6 +345,9 @@ impl Run {
                 }
                 let infosha = info.as_ref().map(|i| canon_sha(&Value::from(i.clone()))).unwrap_or_default();
                 self.emit("Commit", r, json!({"info": infosha}), &out, x);
+                if let Some(k) = op.get("crash_at").and_then(|v| v.as_u64()) {
+                    self.crash_to(r, &pre, from, k as usize);
+                }
             }
             "meld" => {
                 let s = op["s"].as_u64().unwrap_or(0) as usize % self.reps.len();
@@ -347,6 +371,9 @@ impl Run {
                     x["crash"] = self.crash_snaps(r, &pre, from);
                 }
                 self.emit("Meld", r, json!({"s": rname(s)}), &out, x);
+                if let Some(k) = op.get("crash_at").and_then(|v| v.as_u64()) {
+                    self.crash_to(r, &pre, from, k as usize);
+                }
             }
             "refresh" => {
                 let m = &mut self.reps[r].as_mut().unwrap().melda;
@@ -453,6 +480,11 @@ impl Run {
                 let out = Outcome { kind: "ok", msg: String::new(), val: Value::Null };
                 self.emit("Copy", r, json!({"s": rname(s), "key": tok(&k)}), &out, json!({}));
             }
+            "crash" => {
+                let pre = self.items_of(r);
+                let from = self.stores[r].lock().unwrap().log.len();
+                self.crash_to(r, &pre, from, 0);
+            }
             "reopen" => {
                 self.reps[r] = None;
                 let store = self.stores[r].clone();
@@ -506,6 +538,45 @@ impl Run {
                 }
                 let out = Outcome { kind: "ok", msg: String::new(), val: Value::Null };
                 self.emit("Synced", r, json!({"s": rname(s)}), &out, json!({"peer": rname(s), "rounds": rounds, "converged": converged}));
+            }
+            "deliver" => {
+                // deliver the items of `s` that `r` lacks one file at a time, in the k-th permutation
+                // (or a seeded shuffle), with a refresh after each delivered file
+                let s = op["s"].as_u64().unwrap_or(0) as usize % self.reps.len();
+                if s == r {
+                    return;
+                }
+                let src = self.items_of(s);
+                let dst = self.items_of(r);
+                let mut keys: Vec<String> = src.keys().filter(|k| !dst.contains_key(*k)).cloned().collect();
+                if let Some(k) = op.get("perm").and_then(|v| v.as_u64()) {
+                    // k-th permutation in the factorial number system
+                    let mut pool = keys.clone();
+                    let mut k = k;
+                    keys.clear();
+                    while !pool.is_empty() {
+                        let n = pool.len() as u64;
+                        let i = (k % n) as usize;
+                        k /= n;
+                        keys.push(pool.remove(i));
+                    }
+                } else {
+                    let mut p = Prng::new(op.get("seed").and_then(|v| v.as_u64()).unwrap_or(1));
+                    p.shuffle(&mut keys);
+                }
+                let limit = op.get("limit").and_then(|v| v.as_u64()).unwrap_or(u64::MAX) as usize;
+                for k in keys.into_iter().take(limit) {
+                    let bytes = src[&k].clone();
+                    self.stores[r].lock().unwrap().own_mut().insert(k.clone(), bytes);
+                    let out = Outcome { kind: "ok", msg: String::new(), val: Value::Null };
+                    self.emit("Copy", r, json!({"s": rname(s), "key": tok(&k)}), &out, json!({}));
+                    if op.get("refresh_each").and_then(|v| v.as_bool()).unwrap_or(true) {
+                        self.exec(&json!({"op": "refresh", "r": r}));
+                    }
+                    if self.dead {
+                        return;
+                    }
+                }
             }
             "damage" => self.damage(r, op),
             _ => {}
@@ -687,6 +758,109 @@ pub fn random_spec(run: u64, seed: u64, profile: &str) -> Value {
         };
         ops.push(op);
     }
+    if profile == "deliver" {
+        // two writers build a branching history, a third replica receives it file by file
+        ops.clear();
+        let n = 3 + p.below(6);
+        for _ in 0..n {
+            let r = p.below(2);
+            ops.push(json!({"op": "edit", "r": r, "seed": p.next()}));
+            if p.chance(1, 3) {
+                ops.push(json!({"op": "edit", "r": r, "seed": p.next()}));
+            }
+            ops.push(json!({"op": "commit", "r": r, "seed": p.next()}));
+            if p.chance(1, 3) {
+                ops.push(json!({"op": "sync", "r": 0, "s": 1}));
+            }
+            if p.chance(1, 6) {
+                ops.push(json!({"op": "resolve", "r": r, "o": p.below(8), "leaf": p.below(4)}));
+                ops.push(json!({"op": "commit", "r": r, "seed": p.next()}));
+            }
+        }
+        ops.push(json!({"op": "unstage", "r": 0}));
+        ops.push(json!({"op": "unstage", "r": 1}));
+        ops.push(json!({"op": "sync", "r": 0, "s": 1}));
+        ops.push(json!({"op": "deliver", "r": 2, "s": 0, "perm": p.next() % 1_000_000_007, "refresh_each": true}));
+        ops.push(json!({"op": "reload", "r": 2}));
+        ops.push(json!({"op": "sync", "r": 2, "s": 0}));
+        return json!({"run": run, "replicas": 3, "pool": *p.pick(&[1usize, 2, 4, 16]), "ops": ops, "label": format!("random:{}:{}", profile, seed),
+            "floats": false, "nasty": true, "universe": 6 + p.below(6), "list_seed": if p.chance(1, 2) { json!(p.next()) } else { Value::Null }});
+    }
+    if profile == "fail" {
+        // write failures at every position of commit and meld, then retry and reopen
+        ops.clear();
+        let n = 3 + p.below(5);
+        for _ in 0..n {
+            let r = p.below(2);
+            ops.push(json!({"op": "edit", "r": r, "seed": p.next()}));
+            let plan: Vec<u64> = match p.below(6) { 0 => vec![1], 1 => vec![2], 2 => vec![1, 2], 3 => vec![1, 3], 4 => vec![2, 3], _ => vec![] };
+            if !plan.is_empty() {
+                ops.push(json!({"op": "commit", "r": r, "seed": p.next(), "fail": plan, "crashenum": true}));
+                if p.chance(1, 2) {
+                    ops.push(json!({"op": "commit", "r": r, "seed": p.next(), "fail": [1 + p.below(2)]}));
+                }
+                if p.chance(1, 3) {
+                    ops.push(json!({"op": "edit", "r": r, "seed": p.next()}));
+                }
+            }
+            ops.push(json!({"op": "commit", "r": r, "seed": p.next(), "crashenum": true}));
+            if p.chance(1, 2) {
+                ops.push(json!({"op": "reopen", "r": r}));
+            }
+            if p.chance(1, 2) {
+                let f: Vec<u64> = if p.chance(1, 2) { vec![1 + p.below(3) as u64] } else { vec![] };
+                ops.push(json!({"op": "meld", "r": 1 - r, "s": r, "fail": f, "crashenum": true}));
+                ops.push(json!({"op": "refresh", "r": 1 - r}));
+            }
+        }
+        nrep_override(&mut ops);
+        for r in 0..2 {
+            ops.push(json!({"op": "unstage", "r": r}));
+            ops.push(json!({"op": "reopen", "r": r}));
+        }
+        ops.push(json!({"op": "sync", "r": 0, "s": 1}));
+        return json!({"run": run, "replicas": 2, "pool": *p.pick(&[1usize, 2, 4, 16]), "ops": ops, "label": format!("random:{}:{}", profile, seed),
+            "floats": false, "nasty": true, "universe": 6 + p.below(6), "list_seed": Value::Null});
+    }
+    if profile == "damage" {
+        ops.clear();
+        let n = 2 + p.below(5);
+        for _ in 0..n {
+            let r = p.below(2);
+            ops.push(json!({"op": "edit", "r": r, "seed": p.next()}));
+            ops.push(json!({"op": "commit", "r": r, "seed": p.next()}));
+            if p.chance(1, 3) {
+                ops.push(json!({"op": "sync", "r": 0, "s": 1}));
+            }
+        }
+        ops.push(json!({"op": "unstage", "r": 0}));
+        ops.push(json!({"op": "unstage", "r": 1}));
+        ops.push(json!({"op": "sync", "r": 0, "s": 1}));
+        // replica 2 gets a byte copy of everything without loading it (so later damage hits items it never read)
+        ops.push(json!({"op": "deliver", "r": 2, "s": 0, "seed": p.next(), "refresh_each": false}));
+        let victim = if p.chance(2, 3) { 2 } else { p.below(2) };
+        let nd = 1 + p.below(2);
+        for _ in 0..nd {
+            let kind = *p.pick(&["flip", "flip", "flip", "trunc", "empty", "delete", "inject"]);
+            let mut d = json!({"op": "damage", "r": victim, "kind": kind, "n": p.below(64), "pos": p.next() % 1_000_003});
+            if kind == "inject" {
+                let names = ["zz.pack", "12-ab.delta", "foo.delta", "1-0000000000000000000000000000000000000000000000000000000000000000.delta",
+                             "0000000000000000000000000000000000000000000000000000000000000000.pack"];
+                d["key"] = json!(*p.pick(&names));
+                d["bytes"] = json!(*p.pick(&["junk", "{}", "[]", "[{\"a\":1}]", "{\"c\":[[\"x\",\"y\"]]}", ""]));
+            }
+            ops.push(d);
+            match p.below(4) {
+                0 => ops.push(json!({"op": "refresh", "r": victim})),
+                1 => ops.push(json!({"op": "reload", "r": victim})),
+                _ => ops.push(json!({"op": "reopen", "r": victim})),
+            }
+        }
+        ops.push(json!({"op": "refresh", "r": victim}));
+        ops.push(json!({"op": "reopen", "r": victim}));
+        return json!({"run": run, "replicas": 3, "pool": *p.pick(&[1usize, 2, 4, 16]), "ops": ops, "label": format!("random:{}:{}", profile, seed),
+            "floats": false, "nasty": true, "universe": 6 + p.below(6), "list_seed": Value::Null});
+    }
     // final all-pairs synchronisation
     for _ in 0..2 {
         for r in 0..nrep {
@@ -706,6 +880,8 @@ pub fn random_spec(run: u64, seed: u64, profile: &str) -> Value {
         "floats": profile == "floats" || p.chance(1, 3), "nasty": true, "universe": 8 + p.below(8),
         "list_seed": if p.chance(1, 2) { json!(p.next()) } else { Value::Null }})
 }
+
+fn nrep_override(_ops: &mut Vec<Value>) {}
 
 pub fn sha_of_bytes(b: &[u8]) -> String {
     sha(b)
